@@ -86,6 +86,9 @@ fn acts(n: &Node, thorough: bool, jumps: &[u64]) -> Vec<Action> {
                 }
             }
             if !second {
+            // the ends of the epoch range: a document that starts and ends in the last epoch there is does not end after it starts
+            docs.push(("stake(start=2^64-1,end=2^64-1)".into(), stake_doc_bytes(1, u64::MAX, u64::MAX, amount), true));
+            docs.push(("stake(start=2^64-2,end=2^64-1)".into(), stake_doc_bytes(1, u64::MAX - 1, u64::MAX, amount), true));
             docs.push(("stake(amount!=output)".into(), stake_doc_bytes(1, cur + 1, cur + 2, amount + 1), true));
             docs.push(("stake(first-output-MEL)".into(), stake_doc_bytes(1, cur + 1, cur + 2, mc.1.coin_data.value.0), false));
             let good = stake_doc_bytes(1, cur + 1, cur + 2, amount);
